@@ -24,7 +24,13 @@ def plans(tier):
                 # ... and events sent on top of such an event (which cite it): the rejected-event oracle matters
                 (3, "10", 2, "{1}", "TRUE", "FALSE", "TRUE"), (3, "12", 2, "{1}", "FALSE", "FALSE", "TRUE"),
                 # additional creators (privileged-creator versions): alice holds the creators' level
-                (2, "12", 2, "{1}", "FALSE", "FALSE", "FALSE", 7, '{"alice"}')]
+                (2, "12", 2, "{1}", "FALSE", "FALSE", "FALSE", 8, '{"alice"}'),
+                # users_default set (Start 4: 50, Start 5: 100): alice and carol hold power through the default only,
+                # bob / the creator through a users entry; two concurrent events on top of the prefix, one plan per
+                # resolution algorithm (the power ordering of v2 / v2.1 reads the effective level, R2; v1 reads it
+                # through the auth rules only) and both directions of the event-ID tie-break
+                (4, "10", 2, "{1}", "FALSE", "FALSE", "FALSE", 8), (5, "10", 2, "{1}", "TRUE", "FALSE", "FALSE", 8),
+                (4, "12", 2, "{1}", "TRUE", "FALSE", "FALSE", 8), (4, "1", 2, "{1}", "FALSE", "FALSE", "FALSE", 8)]
     out = []
     # one or two versions per resolution algorithm and event format (what differs between the versions of one
     # algorithm are the auth rules, which are C07's subject)
@@ -43,6 +49,16 @@ def plans(tier):
         out.append((2, ver, 2, "{1, 2}", "FALSE", "TRUE", "FALSE", None, '{"alice"}'))
         out.append((1, ver, 2, "{1}", "TRUE", "FALSE", "TRUE", None, '{"bob"}'))
     out.append((2, "10", 1, "{1}", "FALSE", "FALSE", "FALSE", None, '{"alice"}'))   # meaningless before v12: must change nothing
+    # users_default as a dimension of the power levels (Start 4: 50, Start 5: 100, and the free kind "pld")
+    for ver in ["2", "10", "12", "org.matrix.hydra.11"]:
+        out.append((4, ver, 2, "{1, 2}", "FALSE", "FALSE", "FALSE", 8))
+    out.append((5, "10", 2, "{1}", "TRUE", "TRUE", "FALSE", 7))
+    out.append((5, "12", 2, "{1}", "FALSE", "TRUE", "FALSE", 7))
+    out.append((5, "2", 2, "{1}", "FALSE", "FALSE", "FALSE", 8))
+    out.append((5, "org.matrix.hydra.11", 2, "{1}", "TRUE", "FALSE", "FALSE", 8))
+    out.append((4, "1", 2, "{1}", "FALSE", "TRUE", "FALSE", 7))
+    out.append((5, "1", 2, "{1}", "TRUE", "FALSE", "FALSE", 8))
+    out.append((4, "10", 2, "{1}", "TRUE", "FALSE", "TRUE", 8))    # ... with events their sender's level does not allow
     return out
 
 
